@@ -141,6 +141,13 @@ def write_replay(prop, failed, results, found):
     by_unit = {r.unit: r for r in results}
     doc = {'property': prop, 'failed_obligations': [], 'failing_input': found, 'how_to_replay': './check %s --replay %s' % (prop, path)}
     for o in failed:
+        if o.unit == 'search':
+            doc['failed_obligations'].append({'id': o.id, 'function': o.fn, 'unit': 'bounded search harness (replays/search/verif_search.rs)', 'repo_location': o.where,
+                                              'reason': o.detail, 'verifier_cmd': (getattr(o, 'counterexample', None) or {}).get('cmd', ''),
+                                              'verifier_output': [o.detail], 'counterexample': getattr(o, 'counterexample', None)})
+            if getattr(o, 'counterexample', None):
+                doc['failing_input'] = dict(o.counterexample, source='bounded comparison with an oracle on small graphs against the real code')
+            continue
         if o.unit == 'kani':
             doc['failed_obligations'].append({'id': o.id, 'function': o.fn, 'unit': 'kani harness (see /verif/kani)', 'repo_location': o.where,
                                               'reason': o.detail, 'verifier_cmd': 'cargo kani --harness %s (scratch copy of /repo with the harness appended)' % o.fn,
@@ -215,13 +222,18 @@ def run(prop, tier, seed, units, work, t0):
         kani_results = thorough_mod.kani_lemmas(prop, tier, work)
     except Exception as e:  # kani infrastructure trouble is never an alarm
         problems.append('kani lemma run failed: %s' % e)
+    try:
+        kani_results = list(kani_results) + thorough_mod.bounded_search(prop, tier, work)
+    except Exception as e:  # search infrastructure trouble is never an alarm
+        problems.append('bounded search failed to run: %s' % e)
     if not inconclusive:
         if tier == 'thorough':
             extra = thorough_mod.run_thorough(prop, units, results, work)
             problems += extra.pop('problems', [])
     for k in kani_results:
-        o = Obligation(k['id'], 'kani', k['harness'], 'kani-' + k['strength'], k['where'])
-        o.backend = 'kani_complete' if k['strength'] == 'complete' else 'kani_bounded'
+        is_search = str(k['harness']).startswith('verif_search')
+        o = Obligation(k['id'], 'search' if is_search else 'kani', k['harness'], ('search-' if is_search else 'kani-') + k['strength'], k['where'])
+        o.backend = 'search_bounded' if is_search else ('kani_complete' if k['strength'] == 'complete' else 'kani_bounded')
         o.status = k['status']
         o.detail = k.get('detail', '')
         o.counterexample = k.get('counterexample')
@@ -232,8 +244,8 @@ def run(prop, tier, seed, units, work, t0):
     new_fail = [o for o in failed if (prop, o.id) not in open_known]
     unknown = [o for o in obls if o.status == 'unknown']
     # ---------- evidence
-    counted = [o for o in obls if o.backend != 'kani_bounded']
-    bounded = [o for o in obls if o.backend == 'kani_bounded']
+    counted = [o for o in obls if not o.backend.endswith('_bounded')]
+    bounded = [o for o in obls if o.backend.endswith('_bounded')]
     trusted = []
     for r in results:
         for t in r.trusted:
